@@ -17,7 +17,7 @@ KIDS = {
     'hi': 'hi', 'sp': ' a  b ', 'nl': '\n  foo\n  ', 'blank': '\n   \n',
     'id': '{{v1}}', 'un': '{{u9}}', 'call': '{{f1(v2)}}', 'arrow': '{{() => v1}}', 'fn': '{{function () {{ return v2 }}}}',
     'obj': '{{{{a: () => v2}}}}', 'lit': '{{"s"}}', 'num': '{{1}}', 'mem': '{{v1.x}}', 'cond': '{{v1 ? v2 : v3}}',
-    'eld': '<div v-show={{v1}}>hi</div>', 'elf': '<input v-foo={{v2}}/>', 'empty': '{{}}', 'cmt': '{{/* c */}}', 'spread': '{{...v3}}', 'el': '<b/>', 'elt': '<i>x</i>', 'frag': '<>y</>', 'comp': '<C1/>',
+    'eld': '<div v-show={{v1}}>hi</div>', 'elf': '<input v-foo={{v2}}/>', 'spcall': '{{...f1(v2)}}', 'spobj': '{{...[v1, v2]}}', 'spfn': '{{...(() => [v1])()}}', 'empty': '{{}}', 'cmt': '{{/* c */}}', 'spread': '{{...v3}}', 'el': '<b/>', 'elt': '<i>x</i>', 'frag': '<>y</>', 'comp': '<C1/>',
 }
 HOSTS = {'div': ('div', 'div'), 'Foo': ('Foo', 'Foo'), 'C1': ('C1', 'C1'), 'mem': ('v1.Foo', 'v1.Foo'), 'KeepAlive': ('KeepAlive', 'KeepAlive'),
          'frag': ('', ''), 'cust': ('x-y', 'x-y'), 'Fragment': ('Fragment', 'Fragment')}
@@ -107,7 +107,7 @@ def _shape(env, kids):
 
 COMP_HOSTS = ['Foo', 'C1', 'mem']
 ELEM_HOSTS = ['div', 'frag', 'KeepAlive', 'cust']
-ONE = ['id', 'un', 'call', 'arrow', 'fn', 'obj', 'lit', 'mem', 'cond', 'hi', 'sp', 'nl', 'blank', 'T1', 'T2', 'empty', 'cmt', 'spread', 'el', 'elt', 'eld', 'elf', 'frag', 'comp', 'num']
+ONE = ['id', 'un', 'call', 'arrow', 'fn', 'obj', 'lit', 'mem', 'cond', 'hi', 'sp', 'nl', 'blank', 'T1', 'T2', 'empty', 'cmt', 'spread', 'spcall', 'spobj', 'spfn', 'el', 'elt', 'eld', 'elf', 'frag', 'comp', 'num']
 
 
 def kid_jobs(tier, hosts, vslots_for):
